@@ -177,8 +177,24 @@ fn scenario(seed: u64, k: u64, out: &Out) {
         }
         let main_chain = w.chains[net.main].clone();
         let tip = main_chain.tip();
-        let op = rng.below(7);
+        let op = rng.below(9);
+        let mut prelude: Option<packed::VerifiableHeader> = None;
         let (msg, opname): (Option<packed::VerifiableHeader>, String) = match op {
+            7 | 8 if tip >= 2 => {
+                // two cooperating announcements: first an (unproven) competitor of the proven tip at the same height whose
+                // extension commits to an inflated total difficulty, then a child of the *proven* tip whose parent chain root
+                // continues the competitor's total difficulty - each message alone is harmless
+                let mut below = main_chain.clone();
+                below.truncate(tip - 1);
+                let inflated = &main_chain.td(tip) * 4u64 + 12345u64;
+                let (sib, sib_vh) = mutate::forged_child(&below, Some(inflated.clone()), None, rng.next_u64());
+                mon.fabricated.insert(sib.hash(), (&main_chain.td(tip - 1) + &sib.difficulty(), below.tip_hash(), tip));
+                let sib_total = &inflated + &sib.difficulty();
+                let (b, vh) = mutate::forged_child(&main_chain, Some(sib_total), None, rng.next_u64());
+                mon.fabricated.insert(b.hash(), (&main_chain.td(tip) + &b.difficulty(), main_chain.tip_hash(), tip + 1));
+                prelude = Some(sib_vh);
+                (Some(vh), "forged-child|total_difficulty-continuing-an-unproven-competitor".into())
+            }
             0 | 1 | 2 => {
                 // forged child: extension commits to a parent chain root with a lie about the total difficulty
                 let real = main_chain.td(tip);
@@ -221,6 +237,10 @@ fn scenario(seed: u64, k: u64, out: &Out) {
                 (Some(main_chain.vh(n)), "older-block-announcement".into())
             }
         };
+        if let Some(pvh) = prelude {
+            let data = server::lc_msg(packed::SendLastState::new_builder().last_header(pvh).build());
+            w.deliver(adv, Resp { proto: LC, data, label: Label::Invalid("unproven-competitor-with-inflated-total-difficulty".into()) }, &mut mon);
+        }
         if let Some(vh) = msg {
             let data = server::lc_msg(packed::SendLastState::new_builder().last_header(vh).build());
             let label = if opname.starts_with("truthful") || opname.starts_with("older") || opname.starts_with("equal") { Label::Unjudged } else { Label::Invalid(opname.clone()) };
